@@ -9,7 +9,9 @@ EXPLANATION = (
     "is provably non-zero, and every iteration site tests the cursor. R19.4: from {cursor 0, no positive members} each signed iterator has a "
     "feasible path into its negatives branch (path-sensitive constant propagation). R19.5: bit 0 of the positive word is the representation tag: "
     "every member bit stored into it is `1 << E` with E > 0 on every path, stored and new value are split by the same predicate, and the tag "
-    "word is never overwritten after bitset insertions.")
+    "word is never overwritten after bitset insertions. R19.7: cursor coverage — for every value of the (finite) cursor domain below the end "
+    "bound a bitset-mode call of each signed iterator examines the member words before it can answer end-of-iteration (one abstract walk "
+    "per cursor value), so no cursor value the iterator stores itself falls into a gap between its `positives` and `negatives` tests.")
 NOT_DECIDED = "set semantics over all insertion sequences (membership/iteration equality for every subset); the behaviour itself"
 TRUSTED = ["clang 14 parser/CFG builder", "echse-facts extractor", "python rule engines in /verif/sa"]
 LEVEL_TEXT = ("Static verdict on necessary structural clauses of C19: parser guards inside container domains, nominal typing of the container "
@@ -32,4 +34,9 @@ def run(prog, rep, tier, snap):
     rep.call(bitint.r19_5, prog, rep)
     rep.rule("R19.6", "membership split, shift widths, live degrade loop", 8)
     rep.call(bitint.r19_6, prog, rep)
+    rep.rule("R19.7", "cursor coverage: no cursor value below the end bound ends a bitset iteration blindly", 4)
+    rep.call(bitint.r19_7, prog, rep)
+    from ..rules import state
+    rep.rule("R19.8", "the containers' functions carry no state from one container to the next", 1)
+    rep.call(state.no_carried_state, prog, rep, "R19.8", "bitint")
 READY = True
